@@ -29,7 +29,7 @@ SPEC = dict(
                  "--ignore-vcs-tag is the documented opt-out: only 'tags do not influence the start' is asserted there",
                  "day-of-year 366 in a non-leap year is not generated (the statement does not say whether it matches)"],
     required=["fake_runs", "real_git_runs", "scope:default", "scope:global", "scope:branch", "ignore_runs",
-              "impossible_date_tags", "tie_cases", "uniqueness_checked", "no_matching_tag_cases", "cli_tag_scope_overrides", "show_pep440_line_checked"],
+              "impossible_date_tags", "tie_cases", "uniqueness_checked", "no_matching_tag_cases", "cli_tag_scope_overrides", "show_pep440_line_checked", "fetch_failure_cases"],
     anchors=[("cli", "_parse_version_tags"), ("cli", "get_latest_vcs_version_tag"), ("cli", "_update_cfg_from_vcs"),
              ("vcs", "get_tags"), ("v2version", "is_valid")],
 )
@@ -142,12 +142,21 @@ def pick(R, tdy):
     return p, ast, names, rs[0], rs[1]
 
 
-def observe(ctx, case, d, env, p, ast, tdy, cur, tags_all, tags_merged, scope, cli_scope, ignore, backend, kinds):
+def observe(ctx, case, d, env, p, ast, tdy, cur, tags_all, tags_merged, scope, cli_scope, ignore, backend, kinds,
+            fetch_fails=False):
     """`scope` is the tag scope of the config file; `cli_scope` (or None) is given to `update` as --tag-scope and
     overrides it there (`show` has no such option)."""
     acceptable, why = expected_start(ast, tdy, cur, tags_all, tags_merged, scope, ignore)
-    args = ["show", "--no-fetch"] + (["--ignore-vcs-tag"] if ignore else [])
+    fetch_arg = "--fetch" if fetch_fails else "--no-fetch"
+    args = ["show", fetch_arg] + (["--ignore-vcs-tag"] if ignore else [])
     res = harness.invoke(args, cwd=d, env=env)
+    if fetch_fails and not ignore:
+        # the implicit fetch fails (unreachable remote): bumpver may give up, but if it answers, the local tags
+        # still decide the start version
+        ctx.count("fetch_failure_cases")
+        if res.exit_code != 0 or res.crash:
+            ctx.count("fetch_failure_aborts")
+            return
     desc = {"pattern": p, "config_version": cur, "tags_all": tags_all, "tags_merged": tags_merged, "scope": scope,
             "ignore": ignore, "backend": backend, "expected": sorted(acceptable), "why": why}
     m_all = [t for t in tags_all if matches(ast, t, tdy)]
@@ -189,7 +198,7 @@ def observe(ctx, case, d, env, p, ast, tdy, cur, tags_all, tags_merged, scope, c
     if "PATCH" in names:
         fl["patch"] = True
     date = dt.date(max(st.get("year_y") or 2021, 2001), st.get("month") or 6, min(st.get("dom") or 15, 28))
-    uargs = ["update", "--dry", "--no-fetch"] + gen.flags_to_args(fl, date) + (["--ignore-vcs-tag"] if ignore else [])
+    uargs = ["update", "--dry", fetch_arg] + gen.flags_to_args(fl, date) + (["--ignore-vcs-tag"] if ignore else [])
     if cli_scope:
         uargs += ["--tag-scope", cli_scope]
         ctx.count("cli_tag_scope_overrides")
@@ -197,6 +206,8 @@ def observe(ctx, case, d, env, p, ast, tdy, cur, tags_all, tags_merged, scope, c
         acceptable, why = expected_start(ast, tdy, cur, tags_all, tags_merged, scope, ignore)
         desc = dict(desc, scope=f"{desc['scope']} overridden by --tag-scope {cli_scope}", expected=sorted(acceptable))
     ures = harness.invoke(uargs, cwd=d, env=env)
+    if fetch_fails and not ignore and (ures.crash or ures.exit_code != 0):
+        return
     if ures.crash:
         ctx.violation("impossible_date_tag_crashes" if ("impossible-date" in kinds and "ValueError" in ures.crash)
                       else "other:update_crashes_because_of_tags",
@@ -236,7 +247,13 @@ def run_fake(ctx, case):
         fake.set_out("tag-list", "".join(t + "\n" for t in tags_all))
         fake.set_out("tag-merged", "".join(t + "\n" for t in tags_merged))
         ctx.count("fake_runs")
-        observe(ctx, case, d, fake.env, p, ast, tdy, cur, tags_all, tags_merged, scope, cli_scope, ignore, "fake", kinds)
+        fetch_fails = R.random() < 0.12
+        if fetch_fails:
+            fake.set_out("branch", "* main 0123abc [origin/main] msg\n")
+            fake.set_out("remote", "git@unreachable.example:x/y.git\n")
+            fake.fail_match(["git fetch"])
+        observe(ctx, case, d, fake.env, p, ast, tdy, cur, tags_all, tags_merged, scope, cli_scope, ignore, "fake", kinds,
+                fetch_fails=fetch_fails)
     finally:
         harness.rm_dir(d)
         fake.destroy()
